@@ -373,7 +373,9 @@ pub fn check(args: &[String]) -> i32 {
     pin_to_core(0); // shrinking re-executes scenarios in this process: same machine view as the workers
     for (key, f) in unknown_classes.iter().take(4) {
         let _ = std::fs::create_dir_all(&replays_dir);
-        let (small, tried) = shrink(&prop, &f.scenario, &f.violation, 200);
+        // large artefacts (wide graphs) cost seconds per re-execution: fewer shrink attempts
+        let shrink_budget = if serde_json::to_vec(&f.scenario).map(|b| b.len()).unwrap_or(0) > 200_000 { 20 } else { 200 };
+        let (small, tried) = shrink(&prop, &f.scenario, &f.violation, shrink_budget);
         // message of the shrunk scenario
         crate::determinism_seam::reset(0);
         let msg = cases::replay(&prop, &small)
